@@ -332,7 +332,7 @@ func c20Combinators(w *World, r *Report) {
 	sp := w.SSAPkg("compile")
 	sym := NewSym(w)
 	get := func(n string) *ssa.Function {
-		f := sp.Func(n)
+		f := ssaFuncNamed(sp, n)
 		if f == nil || f.Blocks == nil {
 			panic(undecided{"compile." + n})
 		}
